@@ -230,6 +230,14 @@ DRIVERS = {
     "mahf::components::boundary::BoundaryConstraint": "mahf::components::boundary::boundary_constraint",
     "mahf::components::mutation::Mutation": "mahf::components::mutation::mutation",
 }
+# the rule that decides each driver; it is also evaluated on an operator's execute() that inlines the driver instead of calling it
+DRIVER_RULES = {
+    "mahf::components::selection::Selection": ("c11", "r2_driver"),
+    "mahf::components::replacement::Replacement": ("c12", "r1_driver"),
+    "mahf::components::recombination::Recombination": ("c13", "r5_recombination_driver"),
+    "mahf::components::boundary::BoundaryConstraint": ("c14", "r3_driver"),
+    "mahf::components::initialization::Initialization": ("c14", "r4_initialization"),
+}
 DELEGATION_PROPS = {"C11": ["mahf::components::selection::Selection"], "C12": ["mahf::components::replacement::Replacement"],
                     "C13": ["mahf::components::recombination::Recombination", "mahf::components::mutation::Mutation"],
                     "C14": ["mahf::components::initialization::Initialization", "mahf::components::boundary::BoundaryConstraint"]}
@@ -259,6 +267,12 @@ def check_delegations(ctx, prop, floor):
             ps = it.run()
             n += 1
             good = len(ps) == 1 and ps[0].end == "return" and ps[0].ret == Sym("driver-result") and seen == [("self", "problem", "state")]
+            if not good and not seen and trait in DRIVER_RULES:
+                # the operator does not call the shared driver: its execute() must then BEHAVE like the driver - the driver's own rule
+                # (scenarios on the real population stack, the operator's trait method answered by the scenario) is evaluated on it
+                mod_, fname_ = DRIVER_RULES[trait]
+                getattr(__import__(mod_), fname_)(ctx, fn=ex, rule=prop + ".DRV")
+                continue
             ctx.check(good, prop + ".DRV", ex.key, "executes-through-the-driver",
                       "execute() calls %s with %s and returns %s; expected exactly one call with (self, problem, state), its result returned"
                       % (driver.split("::")[-1], seen, [str(p.ret) if p.end == "return" else p.end for p in ps]), loc=ex.loc())
